@@ -120,7 +120,16 @@ var ciCmd = &cobra.Command{
 				// append GITHUB_WORKSPACE to output file path
 				outputFile = os.Getenv("GITHUB_WORKSPACE") + "/" + outputFile
 			}
-			if err := sarifReport.WriteFile(outputFile); err != nil {
+			// the library's WriteFile does not truncate: a longer report left at this path by an earlier
+			// run would stay behind the new one
+			file, err := os.Create(outputFile)
+			if err == nil {
+				err = sarifReport.PrettyWrite(file)
+				if cerr := file.Close(); err == nil {
+					err = cerr
+				}
+			}
+			if err != nil {
 				fmt.Println("Error writing sarif report: ", err)
 				os.Exit(1)
 			}
